@@ -82,3 +82,11 @@ Proof. vm_compute. repeat split; reflexivity. Qed.
 Definition C13_roundtrip_statement : Prop :=
   forall x, wf x -> b32_decode_string (b32_encode true x) = Ok x /\ b32_decode_nopad (b32_encode false x) = Ok x
                     /\ b64_decode (b64_encode x) = Ok x.
+
+(* the size guards fit together and are the documented numbers (the constants are regenerated
+   from the source): the decoders' limit is the encoded length of the encoders' limit, 10 MiB *)
+Theorem C13_size_limits_fit :
+  (Gen.Consts.c_base32_MAX_ENCODE_SIZE = 10485760 /\ Gen.Consts.c_base64_MAX_ENCODE_SIZE = 10485760 /\
+   Gen.Consts.c_base32_MAX_DECODE_SIZE = ((Gen.Consts.c_base32_MAX_ENCODE_SIZE + 4) / 5) * 8 /\
+   Gen.Consts.c_base64_MAX_DECODE_SIZE = ((Gen.Consts.c_base64_MAX_ENCODE_SIZE + 2) / 3) * 4)%Z.
+Proof. vm_compute. repeat split; reflexivity. Qed.
